@@ -155,7 +155,8 @@ def Mon.answered (m : Mon) (i : Nat) (code : CbCode) : Mon :=
   let m := match code with
     | .exit =>
       let m := if m.ev0 != Host.EVENT_CANCEL && !t.bodies.isEmpty then m.flag "exit-with-rust-work" else m
-      let m := if !t.members.isEmpty then m.flag "exit-with-registered-waitable" else m
+      -- (a cancelled task may leave waitables registered through the C ABI by code that outlives it)
+      let m := if m.ev0 != Host.EVENT_CANCEL && !t.members.isEmpty then m.flag "exit-with-registered-waitable" else m
       let m := if m.ev0 == Host.EVENT_CANCEL && !t.bodies.isEmpty then m.flag "task-state-not-dropped" else m
       let m := if t.rootDroppedUnreturned && t.tcancels == 0 then m.flag "task-cancel-missing" else m
       m
